@@ -2,7 +2,7 @@
 //! kernels of filter.rs, entered through the cfg(kani) wrappers (hook H9).
 use crate::stubs::*;
 use grafeo_common::types::{Timestamp, Value};
-use grafeo_core::execution::operators::{BinaryFilterOp, ExpressionPredicate, FilterExpression, UnaryFilterOp};
+use grafeo_core::execution::operators::{AggregateFunction, BinaryFilterOp, ExpressionPredicate, FilterExpression, UnaryFilterOp, VerifAggregateState};
 use grafeo_core::graph::lpg::LpgStore;
 use std::sync::Arc;
 
@@ -176,3 +176,99 @@ expr_h!(c11_partition_connectives, {
     kani::cover!(a & 4 != 0 && a & 3 != 0 && b & 3 != 0 && c & 3 != 0);
     std::mem::forget(p);
 });
+
+
+/// three values through the real per-group aggregate state machine (hook H13), as the aggregate operators feed it
+fn fold3(f: AggregateFunction, a: Value, b: Value, c: Value) -> Value {
+    let mut s = VerifAggregateState::new(f);
+    s.update(Some(a)); s.update(Some(b)); s.update(Some(c));
+    let r = s.finalize();
+    std::mem::forget(s);
+    r
+}
+
+//@ property: C11
+//@ tier: thorough
+//@ optional: yes
+//@ cap_s: 2400
+//@ mem_gb: 24
+//@ unwindset: ^std::ptr::drop_glue::<:1; ^std::ptr::drop_in_place::<:1; as std::clone::Clone>::clone$:1; drop_slow$:1
+//@ encodes: AggregateState::{new,update,finalize} for Count, CountNonNull, Min, Max, First, Last, Sum (aggregate.rs, via hook H13), aggregate.rs compare_values
+//@ symbolic: the number of rows fed to count(*) (0..3); three Int64 values (all i64) fed to the other aggregates
+//@ bound: groups of at most 3 rows, Int64 values, no DISTINCT
+//@ oracle: count(*) = number of rows; count(x) = 3; min / max / first / last = their definitions; sum = a + b + c when it fits in i64, and not an integer when it does not (never a panic)
+#[kani::proof]
+#[kani::unwind(4)]
+fn c11_aggregates_int_vs_definitions() {
+    let (a, b, c): (i64, i64, i64) = (kani::any(), kani::any(), kani::any());
+    let v = |x: i64| Value::Int64(x);
+    let mut s = VerifAggregateState::new(AggregateFunction::Count);
+    let k: u8 = kani::any(); kani::assume(k <= 3);
+    let mut i = 0; while i < 3 { if i < k { s.update(None); } i += 1; }
+    let r = s.finalize();
+    assert!(matches!(r, Value::Int64(n) if n == k as i64), "count(*) is not the number of rows");
+    std::mem::forget((s, r));
+    let r = fold3(AggregateFunction::CountNonNull, v(a), v(b), v(c)); assert!(matches!(r, Value::Int64(3)), "count(x) is not the number of values"); std::mem::forget(r);
+    let mn = if a <= b && a <= c { a } else if b <= c { b } else { c };
+    let mx = if a >= b && a >= c { a } else if b >= c { b } else { c };
+    let r = fold3(AggregateFunction::Min, v(a), v(b), v(c)); assert!(matches!(r, Value::Int64(x) if x == mn), "min is not the minimum"); std::mem::forget(r);
+    let r = fold3(AggregateFunction::Max, v(a), v(b), v(c)); assert!(matches!(r, Value::Int64(x) if x == mx), "max is not the maximum"); std::mem::forget(r);
+    let r = fold3(AggregateFunction::First, v(a), v(b), v(c)); assert!(matches!(r, Value::Int64(x) if x == a), "first is not the first value"); std::mem::forget(r);
+    let r = fold3(AggregateFunction::Last, v(a), v(b), v(c)); assert!(matches!(r, Value::Int64(x) if x == c), "last is not the last value"); std::mem::forget(r);
+    let r = fold3(AggregateFunction::Sum, v(a), v(b), v(c));
+    match a.checked_add(b).and_then(|t| t.checked_add(c)) {
+        Some(t) => assert!(matches!(r, Value::Int64(x) if x == t), "sum is not the sum"),
+        None => assert!(!matches!(r, Value::Int64(_)), "an integer sum that does not fit in i64 was reported as an integer"),
+    }
+    kani::cover!(a.checked_add(b).is_none());
+    kani::cover!(k == 3 && mn == c && mx == a);
+    std::mem::forget(r);
+}
+
+//@ property: C12
+//@ tier: thorough
+//@ optional: yes
+//@ cap_s: 2400
+//@ mem_gb: 24
+//@ unwindset: ^std::ptr::drop_glue::<:1; ^std::ptr::drop_in_place::<:1; as std::clone::Clone>::clone$:1; drop_slow$:1
+//@ encodes: AggregateState::{new,update,finalize} for Sum, Min, Max on Int64 values (via hook H13)
+//@ symbolic: three Int64 values (all i64)
+//@ bound: groups of 3 rows
+//@ oracle: the aggregates return a value and never panic on extreme integers (i64::MAX + 1, i64::MIN + -1; dev-profile semantics: overflow checks on)
+#[kani::proof]
+#[kani::unwind(4)]
+fn c12_aggregates_int_never_panic() {
+    let (a, b, c): (i64, i64, i64) = (kani::any(), kani::any(), kani::any());
+    let r = fold3(AggregateFunction::Sum, Value::Int64(a), Value::Int64(b), Value::Int64(c));
+    kani::cover!(matches!(r, Value::Null));
+    kani::cover!(matches!(r, Value::Int64(_)));
+    std::mem::forget(r);
+    let r = fold3(AggregateFunction::Min, Value::Int64(a), Value::Int64(b), Value::Int64(c)); std::mem::forget(r);
+    let r = fold3(AggregateFunction::Max, Value::Int64(a), Value::Int64(b), Value::Int64(c)); std::mem::forget(r);
+}
+
+//@ property: C11
+//@ tier: thorough
+//@ optional: yes
+//@ cap_s: 1500
+//@ mem_gb: 28
+//@ unwindset: ^std::ptr::drop_glue::<:1; ^std::ptr::drop_in_place::<:1; as std::clone::Clone>::clone$:1; drop_slow$:1
+//@ encodes: AggregateState::{new,update,finalize} for Avg and Sum on Int64 / Float64 mixes (via hook H13), value_to_f64
+//@ symbolic: two Int64 values (all i64) and three Float64 values (all bit patterns)
+//@ bound: groups of 3 rows in the kind orders int-int-float and float-float-float
+//@ oracle: avg = (0.0 + x + y + z) / 3 and the float sum = 0.0 + f + g + h, bit for bit (NaN compared as NaN); no panic
+#[kani::proof]
+#[kani::unwind(4)]
+fn c11_aggregates_avg_and_float_sum() {
+    let (a, b): (i64, i64) = (kani::any(), kani::any());
+    let (f, g, h): (f64, f64, f64) = (f64::from_bits(kani::any()), f64::from_bits(kani::any()), f64::from_bits(kani::any()));
+    let r = fold3(AggregateFunction::Avg, Value::Int64(a), Value::Int64(b), Value::Float64(f));
+    let want = (0.0 + a as f64 + b as f64 + f) / 3.0;
+    assert!(matches!(r, Value::Float64(x) if x.to_bits() == want.to_bits() || (x.is_nan() && want.is_nan())), "avg is not sum / count");
+    std::mem::forget(r);
+    let r = fold3(AggregateFunction::Sum, Value::Float64(f), Value::Float64(g), Value::Float64(h));
+    let want = 0.0 + f + g + h;
+    assert!(matches!(r, Value::Float64(x) if x.to_bits() == want.to_bits() || (x.is_nan() && want.is_nan())), "float sum is not the sequential sum");
+    kani::cover!(f.is_nan());
+    std::mem::forget(r);
+}
